@@ -91,6 +91,10 @@ const OPS = {
   ifaceElemUnionKey: { arity: 2, decl: (n, s) => `interface ${n} { k: ${s[0]}; j: ${s[1]}; other: symbol }\ntype ${n}K = 'k' | 'j';`, src: (s, n) => `${n}[${n}K]`, ctors: (c) => c[0].concat(c[1]), samples: (x) => x[0].concat(x[1]) },
   ifaceElemString: { arity: 2, decl: (n, s) => `interface ${n} { k: ${s[0]}; j?: ${s[1]} }`, src: (s, n) => `${n}[string]`, ctors: (c) => c[0].concat(c[1]), samples: (x) => x[0].concat(x[1]) },
   methodElem: { arity: 1, decl: (n, s) => `type ${n} = { m(): void; k: ${s[0]} };`, src: (s, n) => `${n}['m' | 'k']`, ctors: (c) => ['Function'].concat(c[0]), samples: (x) => [() => {}].concat(x[0]) },
+  // the indexed member is inherited from a parent interface (one / two levels up); an own declaration wins over the parent's
+  ifaceElemInherited: { arity: 1, decl: (n, s) => `interface ${n}b { k: ${s[0]}; other: symbol }\ninterface ${n} extends ${n}b { own: symbol }`, src: (s, n) => `${n}['k']`, ctors: (c) => c[0], samples: (x) => x[0] },
+  ifaceElemInherited2: { arity: 1, decl: (n, s) => `interface ${n}r { k: ${s[0]} }\ninterface ${n}b extends ${n}r { other: symbol }\ninterface ${n} extends ${n}b {}`, src: (s, n) => `${n}["k"]`, ctors: (c) => c[0], samples: (x) => x[0] },
+  ifaceElemOverride: { arity: 1, decl: (n, s) => `interface ${n}b { k: ${s[0]} | symbol; other: symbol }\ninterface ${n} extends ${n}b { k: ${s[0]} }`, src: (s, n) => `${n}['k']`, ctors: (c) => c[0], samples: (x) => x[0] },
   ifaceMethodElem: { arity: 1, decl: (n, s) => `interface ${n} { m(): void; get k(): ${s[0]} }`, src: (s, n) => `${n}['m' | 'k']`, ctors: (c) => ['Function'].concat(c[0]), samples: (x) => [() => {}].concat(x[0]) },
   arrayGenericElem: { arity: 1, src: (s) => `Array<${s[0]}>[number]`, ctors: (c) => c[0], samples: (x) => x[0] },
   tupleOptElem: { arity: 2, decl: (n, s) => `type ${n} = [${s[0]}, (${s[1]})?];`, src: (s, n) => `${n}[number]`, ctors: (c) => c[0].concat(c[1]), samples: (x) => x[0].concat(x[1]) },
